@@ -22,8 +22,9 @@ add("C01", EXPL,
     "structure-conforming base IBANs of all countries of the tree's table is executed through "
     "IBAN() and compared with an independent ISO 13616 reference; a coverage statement over that "
     "deviation space, not a proof for all strings. Also: white-space paddings to every raw length up to "
-    "90, dictionary tokens over every offset, the same core after a 4 500-call API prelude, and under "
-    "python -O.",
+    "90, dictionary tokens over every offset, decoration around the text (31 x 31 character pairs), every "
+    "value of every small minor field (all 17 576 currency triples of MU / SC), the same core after a "
+    "4 500-call API prelude, under python -O and under python -W error.",
     "Trusts the reference model mc/ref/iban.py + mc/ref/reg.py (reads the tree's registry JSON "
     "itself). Texts further than the bound from every base are not explored.",
     "DESIGN.md section 4 C01")
@@ -36,25 +37,33 @@ TECH_INPUT = ("bounded exhaustive enumeration of the stated input-deviation spac
 add("C02", EXPL, TECH_INPUT,
     "For every country a residue-complete BBAN family (all 97 values of the mod-97 residue) x all 100 "
     "check-digit pairs is executed through IBAN.from_bban and IBAN(); the verdict can only depend on "
-    "residue and pair, so the 97x100 grid per country is the complete abstract space.",
+    "residue and pair, so the 97x100 grid per country is the complete abstract space. The same question "
+    "is asked through is_valid / validate() of unvalidated objects, non-validating assembly and differently "
+    "spelled BBAN strings; special BBANs (dictionary tokens, zero / nine runs, small fields); assembly after "
+    "a run-time update of the country table.",
     "Trusts the reference mod-97 arithmetic (digit-string long division) in mc/ref/iban.py.",
     "DESIGN.md section 4 C02")
 add("C03", EXPL, TECH_INPUT,
     "Every position >= 2 x every ordered same-kind character pair and every adjacent same-kind "
     "transposition on reference-valid IBANs of every country under two (thorough: five) right-context "
-    "fillers; each mutated text must be rejected by IBAN().",
+    "fillers; each mutated text must be rejected by IBAN() - also with national validation, given as an "
+    "IBAN object, with positional flags, and (asked is_valid) as a copy / pickle of the unvalidated object; "
+    "plus typos inside and next to dictionary tokens, long zero / nine runs and every small field.",
     "One error per text; valid side built with reference check digits; bases must be accepted first.",
     "DESIGN.md section 4 C03")
 add("C04", EXPL, TECH_INPUT,
     "Every text within one edit over the wide alphabet of 8-/11-character base BICs, every length, "
-    "all 1296 country-field pairs, through four entry points in both compliance modes, compared "
+    "all 1296 country-field pairs, decoration around the text, through eight entry points in both "
+    "compliance modes (incl. objects built in strict mode and validated in the other), compared "
     "with an explicit per-position ISO 9362 grammar.",
     "Trusts mc/ref/bic.py and pycountry's iso3166-1.json as the ISO 3166 code list.",
     "DESIGN.md section 4 C04")
 add("C05", EXPL, TECH_INPUT,
     "The C01 and C04 deviation families through all validating entry points (6 for IBAN, 5 for BIC): "
     "nothing but SchwiftyException escapes, is_valid never raises, entry points agree, and a raised "
-    "class names a defect the reference finds present (permissive predicate).",
+    "class names a defect the reference finds present (permissive predicate); an 'extremes' shard (empty, "
+    "one-character, 4 300 / 5 000-digit texts) through 20 public ways of handing a text over; python -O and "
+    "python -W error interpreters.",
     "Trusts the defect predicates of mc/ref; national defects judged by mc/ref/nat.py / bbk.py, "
     "abstentions not judged.",
     "DESIGN.md section 4 C05")
@@ -62,20 +71,26 @@ add("C06", EXPL, TECH_INPUT,
     "For the 22 countries every value of the check field for every body one substitution away from "
     "four bases, wrapped in reference check digits, through three entry points against published "
     "rules re-implemented with hard-coded field layouts; all other countries: flag must not matter; "
-    "all countries: accepted with flag => accepted without.",
+    "all countries: accepted with flag => accepted without; other spellings of the request (truthy flag, "
+    "keyword / positional forms, from_bban); the same verdicts with the key of every body listed in a "
+    "synthetic bank registry.",
     "Trusts mc/ref/nat.py (written from the published rules, compared with the library on every case).",
     "DESIGN.md section 4 C06")
 add("C07", EXPL, TECH_INPUT,
     "Every implemented Bundesbank method on all account numbers within 2 (thorough 3) digit changes of "
     "landmark bases, and every German bank code of the registry through the public IBAN API with "
-    "reference-accepted and -rejected accounts; unlisted neighbours and unimplemented methods must accept.",
+    "reference-accepted and -rejected accounts; unlisted neighbours and unimplemented methods must accept; "
+    "the same after IBANs of other countries carrying the same key were looked up; five spellings of the "
+    "request must agree.",
     "Trusts mc/ref/bbk.py; the reference abstains where the published text has a second variant the "
     "property does not demand (13/63/76).",
     "DESIGN.md section 4 C07")
 add("C08", EXPL, TECH_INPUT,
     "Full product of a 12-string menu per component over the three generate() arguments for every "
     "country, plus from_components for the other component kinds, compared with a reference assembly "
-    "(positions, padding, split, over-length class).",
+    "(positions, padding, split, over-length class); value relationships between the arguments, placeholder "
+    "words and BIC-shaped codes as values, characters special to str.format / % / re in over-long values, "
+    "python -O and python -W error interpreters, generation after a run-time update of the country table.",
     "Trusts mc/ref/gen.py; the ambiguous 'combined bank code + branch code' input is excluded.",
     "DESIGN.md section 4 C08")
 
@@ -83,26 +98,32 @@ add("C09", EXPL, TECH_INPUT,
     "For the 19 computing countries every body of the C06 family and every case of the C08 menu product "
     "is generated and must pass national validation and the published rule; seeded random draws "
     "likewise; every nationally valid IBAN of every country with positions is decomposed through the "
-    "eight accessors and rebuilt, compared at every covered position.",
+    "eight accessors and rebuilt, compared at every covered position; every subset of pins in random(); "
+    "a country's algorithm replaced through checksum.register.",
     "Trusts mc/ref/nat.py for 'nationally valid'; reserved filler positions (TR[5], MU[20:23]) exempt.",
     "DESIGN.md section 4 C09")
 add("C10", EXPL, TECH_INPUT,
     "Per country valid and invalid texts, BIC bases: every gap x 5 white-space kinds (single, double, "
     "pairs of gaps), all case patterns (all 2^n for <= 11 letters); same verdict, equal objects, "
-    "canonical compact form, reference formatting, parse(formatted) == parse(compact) == object.",
+    "canonical compact form, reference formatting, parse(formatted) == parse(compact) == object; BICs also "
+    "in strict mode; components handed to generate / from_components in five spacing / case styles, blank-"
+    "only components.",
     "White-space kinds and ASCII case as named by the property; other Unicode belongs to C01.",
     "DESIGN.md section 4 C10")
 add("C11", EXPL, TECH_INPUT,
     "Every accepted IBAN among all bases x all fillers x conforming substitutions and the length/prefix "
     "families, every accepted BIC of the C04 families: concatenation, eight accessors vs. the published "
-    "positions, disjointness, IBAN- vs BBAN-level accessors, from_bban reassembly.",
+    "positions, disjointness, IBAN- vs BBAN-level accessors, from_bban reassembly; objects re-read and "
+    "re-validated after their BBAN was handed to constructors of other countries; decomposition after a "
+    "run-time update of the country table (objects, deep copies, pickles created before).",
     "Published positions = the tree's merged table read by mc/ref/reg.py.",
     "DESIGN.md section 4 C11")
 add("C12", EXPL, TECH_INPUT + "; configurations: all bank lists of <= 3 entries over a 36-entry alphabet "
     "installed through the library's own index-building statements",
     "Exhaustive over the bundled registry (every key, every BIC, unlisted neighbours, an IBAN around "
     "every key) and over all synthetic registries of <= 3 entries: candidates, selection predicate, "
-    "InvalidBankCode, inversion, iban.bank/bic/names.",
+    "InvalidBankCode, inversion, iban.bank/bic/names; registries for keys of several components (PL, SI); "
+    "a malformed registry BIC; unvalidated objects of wrong length; a run-time refresh of the bank list.",
     "Trusts mc/ref/lookup.py; synthetic registries replace registry state in-process and are restored "
     "(restoration verified).",
     "DESIGN.md section 4 C12")
@@ -113,7 +134,8 @@ add("C13", EXPL,
     "Every country x registry mode x pin configuration: every bank, every character at every generated "
     "position, every country choice (<= 1 deviation) must give a valid IBAN honouring the pins or the "
     "documented overflow error; equal seeds give equal results in-process, across fresh processes and "
-    "under 5 PYTHONHASHSEED values.",
+    "under 5 PYTHONHASHSEED values. Pin configurations: none, each single, every subset of bank / branch / "
+    "account, all; consecutive and impossible account numbers; wrong-class and over-wide pins.",
     "Scripted answer sequences need not be Mersenne-Twister producible (random= accepts any generator); "
     "deviations are placed within the first 80 choice points.",
     "DESIGN.md section 4 C13")
@@ -125,8 +147,13 @@ add("C14", "model_checking",
     "About 400 (quick) harnesses of 2-3 threads over every Bundesbank method object (operands chosen by "
     "remainder class and rule branch so that their scratch values differ), the IBAN-level path, lookups on "
     "the same registry entry, generation, seeded random draws, raising national checks, assembly next to "
-    "a mistyped text, one object shared by two threads, and ten cold-start pairs: every schedule within "
-    "the preemption bound is executed on the real code; replay determinism is asserted per harness.",
+    "a mistyped text, one object shared by two threads, a valid next to an invalid IBAN of every national "
+    "country, cross-method pairs, two accepted accounts of different rule branches at bytecode granularity "
+    "(with a partial-order reduction over thread-local instructions), ten cold-start pairs and one cold-"
+    "start pair per method followed by canary calls of every method: every schedule within the preemption "
+    "bound is executed on the real code; results include exception messages; replay determinism is "
+    "asserted per harness; a harness during which the library state drifts away from its start state is "
+    "explored again with one fork of the start state per execution and a read-back after each.",
     "Switch points are line/opcode events inside schwifty/; foreign code is atomic (a blocked thread is "
     "detected through its kernel state); no free-threaded build, no multiprocessing; bounds per harness "
     "group are in the evidence.",
@@ -139,14 +166,19 @@ add("C15", "model_checking",
     "of operation sequences; reference outcomes from fresh interpreters under another hash seed",
     "Every (reachable state, operation) transition over ~270 operations in ~40 groups is executed: outcome "
     "equals the fresh-interpreter outcome, registry payload equals its post-import deep copy, earlier "
-    "objects unchanged; short sequences are additionally executed without state merging.",
+    "objects unchanged (type-strict, with an identity fast path); operations that check an invariant of "
+    "their own (an object handed to further calls comes back unchanged); warnings escalated / recorded; "
+    "short sequences are additionally executed without state merging.",
     "The fingerprint covers module globals, class attributes, instance dicts and properties of schwifty "
-    "objects and pycountry's country list; operations outside the alphabet are not covered.",
+    "objects, pycountry's country list and interpreter-wide settings (int/str limit, recursion limit, "
+    "warnings filters, locale, decimal context); operations outside the alphabet are not covered.",
     "DESIGN.md section 4 C15, 0a, 0c, 0d")
 add("C16", EXPL, TECH_INPUT,
     "All ordered pairs of ~110 IBAN/BIC/BBAN objects (valid and allow_invalid) and plain strings under "
     "six operators, hashing, dict and set lookup; sorted() of all 3-subsets of a pool in all orders; "
-    "copy, deepcopy and all pickle protocols of every object.",
+    "copy, deepcopy and all pickle protocols of every object - fresh, and after every public property was "
+    "read and the validations were run; escaped / normalised re-spellings of non-ASCII texts; numeric BBANs "
+    "of different lengths; pickles across processes with different hash seeds.",
     "Reference = Python str semantics on the compact strings.",
     "DESIGN.md section 4 C16")
 add("C17", EXPL,
@@ -160,8 +192,10 @@ add("C18", EXPL, TECH_INPUT + "; configurations: all sets of <= 3 registry files
     "all directory-listing permutations through the real loader in a sandbox",
     "merge_dicts on all pairs of nested documents up to 3 (thorough 4) nodes and all triples of small "
     "ones; the real loader on every file set / name order / listing order, the bank loader with every "
-    "small v2 document in every position; API behaviour on the effective data; 10 end-to-end "
-    "configurations in a scratch package copy imported by a fresh interpreter.",
+    "small v2 document in every position; the merge pairs once more with the key names the files use; API "
+    "behaviour on the effective data; 15 end-to-end configurations in a scratch package copy imported by a "
+    "fresh interpreter (lookup components, duplicate codes across files); run-time replacement of the table "
+    "through registry.save.",
     "Trusts mc/ref/reg.py's merge/expansion; the harness owns the directory listing order through a Path "
     "subclass.",
     "DESIGN.md section 4 C18")
